@@ -868,3 +868,29 @@ def polyline_method(eng, callee, a, m, fc):
     if ob:
         return ob(eng, callee, a)
     raise Unsupported('Polyline method ' + name + ' (parry query; needs a contract observer)')
+
+
+@ext(r'(?:^|::)TriMesh::(\w+)$')
+def trimesh_method(eng, callee, a, m, fc):
+    name = m.group(1)
+    if name == 'new':
+        return En('Ok', [Struct('TriMesh', [a[0], a[1]])])
+    tm = unref(a[0])
+    if name == 'indices':
+        return Ref(lambda: tm[1])
+    if name == 'vertices':
+        return Ref(lambda: tm[0])
+    if name == 'num_triangles':
+        return len(tm[1].items)
+    if name == 'triangle':
+        i = a[1]
+        if is_sym(i):
+            i = eng.concretize_int(i, 0, len(tm[1].items) - 1)
+        f = tm[1].items[i]
+        vs = tm[0].items
+        idx = [eng.concretize_int(k, 0, len(vs) - 1) if is_sym(k) else int(k) for k in f]
+        return Struct('Triangle', [clone_val(vs[idx[0]]), clone_val(vs[idx[1]]), clone_val(vs[idx[2]])])
+    ob = eng.observers.get('trimesh_' + name)
+    if ob:
+        return ob(eng, callee, a)
+    raise Unsupported('TriMesh method ' + name + ' (parry; needs a contract observer)')
